@@ -131,7 +131,12 @@ def decoder_cases(ctx, rng, streams, per_stream, header_splits=True):
 
 def run_decoder_lockstep(ctx, tie, cases, private=True, prop="C02"):
     """execute each history on the real decoder, replay the concrete (offered, capacity) list on the model, compare"""
-    lines = ["X %s %s %s %s %d" % (c["id"], st.dflags_str(c["flags"]), codec.hx(c["stream"]["frame"]), c["ops"], c["maxcalls"]) for c in cases]
+    def iflags(c):      # a dictionary attached for indefinite use travels as one more flag of the harness
+        fl = st.dflags_str(c["flags"])
+        if c.get("dict"):
+            fl = ("" if fl == "-" else fl + ",") + "dict=" + codec.hx(c["dict"])
+        return fl
+    lines = ["X %s %s %s %s %d" % (c["id"], iflags(c), codec.hx(c["stream"]["frame"]), c["ops"], c["maxcalls"]) for c in cases]
     iout, ierrs = tie.impl(lines)
     if ierrs:
         ctx.violation(dict(kind="harness-crash", detail=ierrs[:2]), what="c02_stream crashed during a decoding history: %r" % (ierrs[0],))
@@ -145,7 +150,10 @@ def run_decoder_lockstep(ctx, tie, cases, private=True, prop="C02"):
         c["iout"] = codec.unhx(t[1])
         c["irecs"] = st.parse_drecords(t[2] if len(t) > 2 else "-")
         calls = ";".join("%d:%d" % (x["offered"], x["cap"]) for x in c["irecs"])
-        mlines.append("X %s %s %s %s" % (c["id"], st.model_dflags(c["flags"]), codec.hx(c["stream"]["frame"]), calls or "-"))
+        if c.get("dict"):
+            mlines.append("XD %s %s %s %s %s" % (c["id"], st.model_dflags(c["flags"]), codec.hx(c["dict"]), codec.hx(c["stream"]["frame"]), calls or "-"))
+        else:
+            mlines.append("X %s %s %s %s" % (c["id"], st.model_dflags(c["flags"]), codec.hx(c["stream"]["frame"]), calls or "-"))
     mout, merrs = tie.model(mlines)
     if merrs:
         ctx.violation(dict(kind="model-crash", detail=merrs[:2]), what="the extracted streaming model crashed: %r" % (merrs[0],), no_input=True)
@@ -158,6 +166,9 @@ def run_decoder_lockstep(ctx, tie, cases, private=True, prop="C02"):
         rep = dict(kind="decoder-history", frame_hex=s["frame"].hex(), ops=c["ops"], flags=c["flags"], desc=s["desc"],
                    parts=s["parts"], valid=s.get("valid", True), why=s.get("why"),
                    calls=[(x["offered"], x["cap"]) for x in c["irecs"]][:400])
+        if c.get("dict"):
+            rep["dict_hex"] = c["dict"].hex()
+            rep["content_hex"] = s["content"].hex() if s.get("content") is not None else None
         # direct oracle: the property statement on the observed behaviour of the real decoder
         stable = "so" in c["flags"]
         if s.get("valid", True):
